@@ -49,6 +49,9 @@ CHECKS = {
  "C13": dict(technique="PBT with labelled violation injection into generated valid specs (32 injectors, k<=4 per schema), type-order permutations, and a resolver-registration history model",
              text="Valid code-built schemas must validate under every drawn type order; each injected rule violation (uniquely named element) must be reported by SchemaValidationError together with the others; register_resolver/validate histories must follow the model 'valid iff no currently registered resolver is bad'.",
              note="Trusted: injectors in props/c13.py (tokens are generated element names, not message texts), vlib/gen/schema.py build_code.", ref="3/C13"),
+ "C14": dict(technique="operation-sequence PBT (clone / visibility / camel-case / extend / fix_type_references on the source or earlier results) with invariants after every step",
+             text="After each drawn operation the result must be closed, hidden elements must be gone from types, references, introspection and queries, every untargeted element must keep its resolver objects, python names, defaults, descriptions and deprecations, and the source schema must keep its structure, closedness, SDL and probe-query answer.",
+             note="Trusted: attrs()/snapshot()/check_result() in props/c14.py, vlib/ref/schemastruct.closed.", ref="3/C14"),
 }
 ALL = ["C%02d" % i for i in range(1, 21)]
 NA_REASON = "check not built yet (work in progress; see DESIGN.md section 3 for the planned design)"
